@@ -15,7 +15,15 @@
 (*             through the variable rnd (a tuple of integers drawn once    *)
 (*             per transition), because TLC re-evaluates RandomElement at  *)
 (*             every reference.                                            *)
-(* Printed: <<"HIST", json>>  json = [{st, r, k, ch}...] one entry per step*)
+(* Printed (mode sim): <<"HIST", json>>, json = [{st, r, k, ch, tr}...],   *)
+(* one entry per step: the step, its flattened result ([0, value..] or [1] *)
+(* = raised), the error kind, the names whose projection changed with the  *)
+(* new projection, tr = the history is truncated here.  Mode enum prints   *)
+(* <<"PRE", json>> per start configuration and <<"SUF", key, json>> per    *)
+(* maximal history (the entries after the start configuration).            *)
+(* Constants: ENames = receivers of the enumerated alphabet, EIdxOff = its *)
+(* indices shifted by 4, Salt = offset of the random numbers (simulation   *)
+(* processes started with one seed draw identical numbers).                *)
 (***************************************************************************)
 EXTENDS Containers, Json
 
